@@ -17,31 +17,43 @@ import warnings
 from .common import Ctx, Driver
 
 MANIFEST = dict(
-    text=("Lean theorems, for all trees (own inductive tree type with opaque tag / string pieces, element identities, hidden tags as "
-          "empty pieces), all indent units and all start levels: the code-mirror of Tag.decode's loop over the event stream "
-          "(indent_level bookkeeping, string-literal mode, strip, _indent_string, empty pieces dropped) equals the recursive "
-          "specification (pretty_refines, pretty_refines_contents, plain_refines; net-effect induction: level and literal tag are "
-          "restored after every balanced block); the specification lays every tag piece and every non-blank stripped string on "
-          "a line of its own at unit^(level+depth) and every outermost whitespace-preserving element verbatim (line_structure, "
-          "preserve_verbatim, preserve_verbatim_line); non-empty output ends with a newline (ends_with_newline); with a "
-          "whitespace-only unit, pretty and plain output have the same non-whitespace characters in the same order (nonws_equal) "
-          "and the same piece sequence up to strip of string pieces and inserted indentation/newlines (pretty_same_events); "
-          "Formatter.indent normalisation yields whitespace for None/int/other arguments and every registered formatter's unit is one "
-          "space (indent_*; generated tables); pre/textarea are the HTML whitespace-preserving names (html_preserve_tags). "
-          "Tie: differential runs of the real prettify/decode/decode_contents on every element of html.parser-parsed, API-edited "
-          "and XML-flavoured trees x formatters x indent settings x start levels against the Lean mirror and spec, and the direct "
-          "Python oracle of the statement incl. html.parser re-parse of both outputs."),
+    text=("Lean theorems, for all trees, all indent units, all start levels and all eventual encodings. (1) Code-mirrors proved equal to "
+          "recursive specifications: Tag.decode's loop over the event stream (indent_level bookkeeping, string-literal mode by identity, "
+          "strip of string pieces, _indent_string, empty pieces dropped) = prettyNode/prettyL (pretty_refines, pretty_refines_contents, "
+          "plain_refines, decode_refines, prettify_refines, state_restored); _event_stream's tag stack over the pre-order with parent "
+          "pointers = the balanced event list (event_stream_refines, decode_on_walk); the entry points Tag.decode / decode_contents / "
+          "encode / encode_contents / prettify (str and bytes flavour) and BeautifulSoup.decode (XML declaration, deprecated bool level) "
+          "on pieces assembled like _format_tag / output_ready (recv_decode_refines, xml_declaration, xml_declaration_python_specific, "
+          "prettify_flavours, prettify_bytes_of_str, void_receiver, tag_piece_shape). (2) Laws of the specification = the clauses of the "
+          "property: every tag piece and non-blank stripped string on a line of its own at unit^(level+depth), outermost "
+          "whitespace-preserving elements verbatim on their own line (line_structure, line_structure_contents, line_structure_general "
+          "without the visibility hypothesis, recv_line_structure, preserve_verbatim, preserve_verbatim_line, preserve_verbatim_contents, "
+          "blank_iff, special_strings_have_lines over the whole generated PREFIX/SUFFIX table); newline at the end (ends_with_newline*, "
+          "recv_line_structure); with a whitespace unit the same non-whitespace characters as the plain output for the same encoding "
+          "(nonws_equal*, recv_nonws_equal, prettify_flavours), the same piece sequence (pretty_same_events) and the same token sequence "
+          "once character data is merged and its whitespace disregarded (pretty_same_tokens, specials_ok_table). (3) Formatter.indent "
+          "normalisation and tables generated from the live code, whole-table obligations (indent_*, builtin_units, html_preserve_tags, "
+          "xml_preserves_nothing, should_pretty_print_iff, whitespace_table). Tie: differential runs of the real prettify / decode / "
+          "decode_contents / encode / encode_contents on every element of html.parser-parsed, API-edited and XML-flavoured trees x "
+          "formatters x indent settings x levels x encodings against the Lean mirrors and specs (ops dec, spec, raw impl/spec, ev, evs, "
+          "tp/tq, indent, strip, spp), and the direct Python oracle of the statement incl. html.parser re-parse and tokenisation of both outputs."),
     design="7/C14",
     note=("Whitespace is Python's (str.isspace): under formatters that do not turn them into entities (minimal, None) pretty-printing "
           "also strips leading/trailing NBSP, U+3000 etc. from text nodes -- 'only whitespace' by this definition, though visible in a "
-          "browser (observation, not claimed as a defect). Tag and string pieces (_format_tag, output_ready) are inputs of the model (C05/C06/C15 own them). The 'only whitespace' "
-          "claims carry the hypothesis that the indent unit is whitespace; Formatter(indent='--') is run for model correspondence "
-          "and line structure only. A hidden whitespace-preserving element (hidden=True set by hand on a pre) has no opening/closing "
-          "piece and therefore no line of its own: modelled and compared, excluded from the line-structure/newline oracle. "
-          "HTMLFormatter(indent=)/XMLFormatter(indent=) ignore the argument (C15's finding): for those two classes the unit is read "
-          "from the formatter object. An XML-flavoured BeautifulSoup object prefixes the XML declaration (BeautifulSoup.decode); the "
-          "harness checks and removes that one line before comparing."),
-    technique="Lean 4 refinement proof (event-stream fold = recursive spec, laws of the spec, generated tables) + differential correspondence + direct Python oracle incl. re-parse",
+          "browser (observation, not claimed as a defect). Opaque inputs of the model: the attribute string of a tag per eventual "
+          "encoding and the substituted body of a string (C05/C06/C15 own them); the codec step of the bytes flavour "
+          "(str.encode(enc, 'xmlcharrefreplace')) is applied by the harness to the model's text. The tokenizer is not modelled: the "
+          "re-parse clause is proved at the token level (pretty_same_tokens) and the cuts are compared with html.parser's on the real "
+          "outputs; the tree-level comparison is the Python oracle. The 'only whitespace' claims carry the hypothesis that the "
+          "indent unit is whitespace; Formatter(indent='--') is run for model correspondence and line structure only; in the bytes "
+          "flavour a whitespace character the target encoding lacks becomes a character reference (statement is about the text "
+          "handed to the codec). A hidden whitespace-preserving element (hidden=True set by hand on a pre) has no opening/closing "
+          "piece and no line of its own: modelled (blocks), compared, excluded from the line/newline oracle. decode_contents() called "
+          "on a pre/textarea itself re-indents its contents (the receiver's own start event is not in the stream): modelled, and "
+          "outside the property's observables (prettify()/decode()). An XML-flavoured BeautifulSoup's declaration line is not "
+          "indented by decode(indent_level=k>0) (modelled as is). For HTMLFormatter/XMLFormatter(indent=...) the unit is read from "
+          "the formatter object (C15 owns which unit results)."),
+    technique="Lean 4 refinement proofs (code-mirror = recursive spec, laws of the spec, generated tables) + differential correspondence + direct Python oracle incl. re-parse and tokenisation",
 )
 
 XML_DECL = '<?xml version="1.0" encoding="utf-8"?>\n'
@@ -1109,12 +1121,132 @@ def raw_section(ctx, soup, recipe, stream, r, spec, farg, fmt, unit, grecvs, idm
                 if text != "" and level is not None and want is not None and not text.endswith("\n"):
                     report(ctx, "pretty output does not end with a newline", case=case, observed=text[-20:], stream=stream + "-raw")
             ctx.case(("R", hash((real, tuple(spec[:2]), call, str(k), str(en)))) if len(real) > 0 else None)
+    # the token view: the model's cuts against the real tokenizer's on the real plain / pretty text
+    if unit_ws and pieces("utf-8").inert:
+        for recv in chosen:
+            if isinstance(recv, BS) or not token_safe(recv):
+                ctx.count("raw:tokens:skipped")
+                continue
+            try:
+                plain_t = E()["Tag"].decode(recv, None, "utf-8", fmt)
+                pretty_t = E()["Tag"].decode(recv, 0, "utf-8", fmt)
+                rp, rq = canon_tokens(real_tokens(plain_t)), canon_tokens(real_tokens(pretty_t))
+            except Exception as ex:  # noqa: BLE001  (html.parser giving up on exotic input is not bs4's business here)
+                ctx.count("raw:tokens:tokenizer-error:" + type(ex).__name__)
+                continue
+            if rp != rq:
+                report(ctx, "html.parser cuts the pretty and the plain output into different token sequences (whitespace in "
+                       "character data disregarded)", case={"recipe": recipe, "receiver": path_of(recv, soup), "formatter": spec,
+                                                             "call": ["prettify"]}, expected=rp, observed=rq, stream=stream + "-tokens")
+            for call_, real_ in (("tp", rp), ("tq", rq)):
+                queries.append(f"{path_of(recv, soup)}/{call_}/0/{tok('utf-8')}")
+                reals.append(("TOK", real_))
+                metas.append((path_of(recv, soup), [call_, 0, "utf-8"]))
+            ctx.count("raw:tokens:compared")
+            ctx.case(("K", hash(rq)))
     if not queries:
         return
     head = f"{tok(unit)} {tok(vcp)} {sets_token(sets)} {len(queries)} " + " ".join(queries) + " " + " ".join(toks)
     for mode in ("impl", "spec"):
         requests.append({"kind": "raw-" + mode, "line": f"c14 raw {mode} " + head, "real": reals, "recipe": recipe, "formatter": spec,
                          "metas": metas, "stream": stream})
+
+
+# --------------------------------------------------------------------------------------
+# the real tokenizer's cuts (html.parser), canonicalised like the model's `canon`
+# --------------------------------------------------------------------------------------
+RAWTEXT = {"script", "style", "title", "textarea", "xmp", "iframe", "noembed", "noframes", "plaintext", "noscript"}
+
+
+def real_tokens(text):
+    """[(kind, raw slice)] of `text` as html.parser cuts it: a slice starts where a handler is called"""
+    from html.parser import HTMLParser
+    marks = []
+    starts = [0]
+    for line in text.split("\n")[:-1]:
+        starts.append(starts[-1] + len(line) + 1)
+
+    class P(HTMLParser):
+        def _m(self, kind):
+            ln, col = self.getpos()
+            marks.append((starts[ln - 1] + col, kind))
+
+        def handle_starttag(self, tag, attrs):
+            self._m("M")
+
+        def handle_startendtag(self, tag, attrs):
+            self._m("M")
+
+        def handle_endtag(self, tag):
+            self._m("M")
+
+        def handle_data(self, data):
+            self._m("D")
+
+        def handle_entityref(self, name):
+            self._m("D")
+
+        def handle_charref(self, name):
+            self._m("D")
+
+        def handle_comment(self, data):
+            self._m("M")
+
+        def handle_decl(self, decl):
+            self._m("M")
+
+        def handle_pi(self, data):
+            self._m("M")
+
+        def unknown_decl(self, data):
+            self._m("M")
+    ps = P(convert_charrefs=False)
+    ps.feed(text)
+    ps.close()
+    out = []
+    for (off, kind), nxt in zip(marks, [m[0] for m in marks[1:]] + [len(text)]):
+        out.append((kind, text[off:nxt]))
+    return out
+
+
+def canon_tokens(toks):
+    out, acc = [], ""
+    for kind, raw in toks:
+        if kind == "D":
+            acc += dropws(raw)
+        else:
+            if acc:
+                out.append("D" + show(acc))
+                acc = ""
+            out.append("M" + show(raw))
+    if acc:
+        out.append("D" + show(acc))
+    return ";".join(out) if out else "-"
+
+
+def token_safe(recv):
+    """the receiver renders to output whose cuts are those the model assumes: it is visible, nothing but text sits inside
+    raw-text elements, special strings do not contain their own delimiters, names are plain"""
+    e = E()
+    Tag, Pre = e["Tag"], e["el"].PreformattedString
+    if recv.hidden:
+        return False
+    for x in [recv] + list(recv.descendants):
+        if isinstance(x, Tag):
+            if not re.fullmatch(r"[a-z][a-z0-9]*", x.name or "") or (x.prefix and not re.fullmatch(r"[a-z]+", x.prefix)):
+                return False
+            if x.name in RAWTEXT and any(isinstance(c, (Tag, Pre)) or "<" in str.__str__(c) for c in x.descendants):
+                return False
+            for k, v in x.attrs.items():
+                if not re.fullmatch(r"[a-z][a-z0-9-]*", str(k)):
+                    return False
+        elif isinstance(x, Pre):
+            body = str.__str__(x)
+            if any(ch in body for ch in "<>") or "--" in body or "]]" in body or "?" in body or body.strip() == "" or body != body.strip():
+                return False
+            if type(x).__name__ not in ("Comment", "CData", "Doctype", "ProcessingInstruction", "Declaration", "XMLProcessingInstruction"):
+                return False
+    return True
 
 
 def gen_recipe(r, stream):
@@ -1281,7 +1413,9 @@ def run(ctx: Ctx):
             # a bytes result comes back as b:<enc>:<text>; the codec step (not modelled) is applied here
             want = []
             for x, g in zip(q["real"], got):
-                if isinstance(x, bytes):
+                if isinstance(x, tuple):
+                    want.append(x[1])
+                elif isinstance(x, bytes):
                     m = g.split(":")
                     try:
                         ok = len(m) == 3 and m[0] == "b" and unshow(m[2]).encode(unshow(m[1]), "xmlcharrefreplace") == x
